@@ -73,6 +73,45 @@ theorem expired_lookup_removes (c : Cache) (now : Nat) (sid : Str) (e : Entry)
   simp only [hg, hx, if_true, true_and]
   exact lookup_filter_self _ _
 
+/-- **fallback_dead_not_resumed**: a server with its own cache and the global fallback refuses an
+    identifier that is dead in both. -/
+theorem fallback_dead_not_resumed (own glob : Cache) (now : Nat) (sid : Str) (want : Bool) (nonce : Nat)
+    (ho : own.get sid = none ∨ (∃ e, own.get sid = some e ∧ e.expired now = true))
+    (hg : glob.get sid = none ∨ (∃ e, glob.get sid = some e ∧ (e.expired now = true ∨ e.key = none))) :
+    (serverResume2 own glob now sid want nonce).2.2 = (if want then .sidNotFound else .none, none) := by
+  have hl : (own.lookupNonExpired now sid).2 = none := by
+    unfold Cache.lookupNonExpired
+    rcases ho with h | ⟨e, he, hx⟩
+    · simp [h]
+    · simp [he, hx]
+  unfold serverResume2
+  simp only [hl]
+  exact dead_not_resumed glob now sid want nonce hg
+
+/-- **fallback_never_revives**: resuming through the global fallback does not copy the session
+    into the server's own cache, so invalidating it where it lives (the global cache) is final:
+    whatever happened before, the next request for that identifier is refused. -/
+theorem fallback_never_revives (own glob : Cache) (now now' : Nat) (sid : Str) (w w' : Bool) (n n' : Nat)
+    (ho : own.get sid = none) :
+    let r := serverResume2 own glob now sid w n
+    r.1.get sid = none ∧
+    (serverResume2 r.1 (r.2.1.invalidate sid) now' sid w' n').2.2 = (if w' then .sidNotFound else .none, none) := by
+  have hl : own.lookupNonExpired now sid = (own, none) := by
+    unfold Cache.lookupNonExpired; simp [ho]
+  have h1 : (serverResume2 own glob now sid w n).1 = own := by
+    unfold serverResume2; simp [hl]
+  refine ⟨by rw [h1]; exact ho, ?_⟩
+  rw [h1]
+  exact fallback_dead_not_resumed own _ now' sid w' n' (Or.inl ho) (Or.inl (get_invalidate_self _ sid))
+
+private def liveEntry : Entry :=
+  { id := ['s'], addr := [], key := some 1, crypto := "AES", user := "u", authenticated := true,
+    validCommands := [], expiration := none, lease := 0, tag := [] }
+
+/-- non-vacuity: a live keyed session in the global cache IS resumed through the fallback -/
+example : (serverResume2 {} (({} : Cache).store liveEntry) 5 ['s'] true 9).2.2.2.isSome = true := by
+  decide
+
 /-- **no_replay** (relative to the symbolic hash): on a resumed connection the first protected
     frame a receiver accepts was sealed with AAD digests equal to the receiver's own view of the
     cleartext exchanged on THIS connection. A frame recorded on an earlier connection was sealed
